@@ -314,8 +314,14 @@ class workq:
             self._waiters.append((channels, ev))
             try:
                 j = ev.get()
-            finally:
+            except BaseException:
+                # killed while blocked (connection dropped): a job that pushjob() already
+                # handed to us must go back to the queue instead of vanishing with us
                 self._waiters.remove((channels, ev))
+                if ev.ready() and ev.successful() and not ev.value.done:
+                    self.pushjob(ev.value)
+                raise
+            self._waiters.remove((channels, ev))
 
         return j
 
